@@ -9,7 +9,9 @@
      * errors and calls are only appended:  errors sc' = errors sc ++ es,  calls sc' = calls sc ++ cs;
      * es contains TooManyPlaceables exactly once if this call set the dirty flag, else not at all;
      * if the dirty flag is NOT set afterwards, (flatten out, es, cs) is what the specification
-       (Bundle/ResolverSpec.v) assigns to the node, with T = travelled and env = local_args.
+       (Bundle/ResolverSpec.v) assigns to the node, with env = local_args and T = the names of the pattern
+       objects on `travelled` (sc_travelled sc = keys T: the model detects cycles by object identity = pkey,
+       the specification by name; key_mem_spec).
    Nothing is assumed about fuel: the statements hold for every fuel at which the call returns. *)
 From FluentV Require Import Base.Bytes Base.BytesFacts Base.Outcome Syntax.Ast Bundle.Args Bundle.ArgsProofs
   Bundle.Number Bundle.ResolverAst Bundle.ResolverAstProofs Bundle.ResolverModel Bundle.ResolverEqns
@@ -53,12 +55,12 @@ Definition delta (sc sc' : scope) : nat :=
 
 (* travelled, as the specification sees it when pattern p is written: Scope::maybe_track puts p on an
    empty stack at the first placeable *)
-Definition Tof (p : pattern) (sc : scope) : list pattern :=
-  match sc_travelled sc with [] => [p] | t => t end.
+Definition Tof (k : option pkey) (sc : scope) : list (option pkey) :=
+  match sc_travelled sc with [] => [k] | t => t end.
 
 (* views of `travelled` before / after a call *)
 Definition ViewT (sc sc' : scope) : Prop := sc_travelled sc' = sc_travelled sc.
-Definition ViewP (p : pattern) (sc sc' : scope) : Prop :=
+Definition ViewP (p : option pkey) (sc sc' : scope) : Prop :=
   (sc_travelled sc <> [] -> sc_travelled sc' = sc_travelled sc) /\
   (sc_travelled sc = [] -> sc_travelled sc' = [] \/ sc_travelled sc' = [p]).
 
@@ -88,6 +90,49 @@ Lemma ViewP_T p sc sc' : sc_travelled sc <> [] -> ViewP p sc sc' -> ViewT sc sc'
 Proof. intros H [A _]. exact (A H). Qed.
 Lemma Tof_nonempty p sc : sc_travelled sc <> [] -> Tof p sc = sc_travelled sc.
 Proof. unfold Tof. destruct (sc_travelled sc); [congruence | reflexivity]. Qed.
+
+(* ---------- names of the specification <-> identities of the model ---------- *)
+Definition key_of (n : pname) : pkey :=
+  match n with NMessage id a => PKey false id a | NTerm id a => PKey true id a end.
+Definition keys (T : list pname) : list (option pkey) := map (fun n => Some (key_of n)) T.
+
+Lemma option_bytes_eqb_eq (x y : option bytes) : option_eqb bytes_eqb x y = true <-> x = y.
+Proof.
+  destruct x as [a|], y as [c|]; cbn; try (split; [discriminate | discriminate]); try tauto.
+  rewrite bytes_eqb_eq. split; [intros ->; reflexivity | intros [= ->]; reflexivity].
+Qed.
+
+Lemma pname_eqb_eq a c : pname_eqb a c = true <-> a = c.
+Proof.
+  destruct a as [i x|i x], c as [j y|j y]; cbn; try (split; discriminate);
+    rewrite Bool.andb_true_iff, bytes_eqb_eq, option_bytes_eqb_eq;
+    (split; [intros [-> ->]; reflexivity | intros [= -> ->]; split; reflexivity]).
+Qed.
+
+Lemma obytes_eqb_eq (x y : option bytes) : obytes_eqb x y = true <-> x = y.
+Proof.
+  destruct x as [a|], y as [c|]; cbn; try (split; [discriminate | discriminate]); try tauto.
+  rewrite bytes_eqb_eq. split; [intros ->; reflexivity | intros [= ->]; reflexivity].
+Qed.
+
+Lemma pkey_eqb_key_of a c : pkey_eqb (key_of a) (key_of c) = true <-> a = c.
+Proof.
+  destruct a as [i x|i x], c as [j y|j y]; cbn [key_of pkey_eqb Bool.eqb andb];
+    try (split; discriminate);
+    rewrite Bool.andb_true_iff, bytes_eqb_eq, obytes_eqb_eq;
+    (split; [intros [-> ->]; reflexivity | intros [= -> ->]; split; reflexivity]).
+Qed.
+
+Lemma key_mem_spec n T : key_mem (key_of n) (keys T) = being_expanded n T.
+Proof.
+  unfold key_mem, keys, being_expanded. induction T as [|n1 T IH]; cbn [map existsb]; [reflexivity|].
+  rewrite IH. f_equal.
+  destruct (pkey_eqb (key_of n1) (key_of n)) eqn:E1, (pname_eqb n n1) eqn:E2; try reflexivity.
+  - apply pkey_eqb_key_of in E1. subst n1.
+    assert (X : pname_eqb n n = true) by (apply pname_eqb_eq; reflexivity). congruence.
+  - apply pname_eqb_eq in E2. subst n1.
+    assert (X : pkey_eqb (key_of n) (key_of n) = true) by (apply pkey_eqb_key_of; reflexivity). congruence.
+Qed.
 
 Section Refine.
 Variable overflow_checks : bool.
@@ -122,14 +167,14 @@ Notation tr := (track overflow_checks call_function transform formatter rules cu
 Notation ga := (get_arguments overflow_checks call_function transform formatter rules custom_as_string
                   unescape_write unescape_to_string f64_from_str b args).
 
-Notation EP := (eval_pattern call_function transform formatter rules custom_as_string unescape_write f64_from_str m args open_by_structure).
-Notation EL := (eval_elements call_function transform formatter rules custom_as_string unescape_write f64_from_str m args open_by_structure).
-Notation EX := (eval_expr call_function transform formatter rules custom_as_string unescape_write f64_from_str m args open_by_structure).
-Notation EI := (eval_inline call_function transform formatter rules custom_as_string unescape_write f64_from_str m args open_by_structure).
-Notation EV := (eval_value call_function transform formatter rules custom_as_string unescape_write f64_from_str m args open_by_structure).
-Notation EA := (eval_args call_function transform formatter rules custom_as_string unescape_write f64_from_str m args open_by_structure).
-Notation ES := (eval_values call_function transform formatter rules custom_as_string unescape_write f64_from_str m args open_by_structure).
-Notation XP := (expand call_function transform formatter rules custom_as_string unescape_write f64_from_str m args open_by_structure).
+Notation EP := (eval_pattern call_function transform formatter rules custom_as_string unescape_write f64_from_str m args).
+Notation EL := (eval_elements call_function transform formatter rules custom_as_string unescape_write f64_from_str m args).
+Notation EX := (eval_expr call_function transform formatter rules custom_as_string unescape_write f64_from_str m args).
+Notation EI := (eval_inline call_function transform formatter rules custom_as_string unescape_write f64_from_str m args).
+Notation EV := (eval_value call_function transform formatter rules custom_as_string unescape_write f64_from_str m args).
+Notation EA := (eval_args call_function transform formatter rules custom_as_string unescape_write f64_from_str m args).
+Notation ES := (eval_values call_function transform formatter rules custom_as_string unescape_write f64_from_str m args).
+Notation XP := (expand call_function transform formatter rules custom_as_string unescape_write f64_from_str m args).
 
 Notation cok := (cache_ok rules).
 
@@ -243,24 +288,24 @@ Proof.
 Qed.
 
 (* ---------- the statements ---------- *)
-Definition R_pw f := forall p sc o sc' T, cok (sc_intls sc) -> Tof p sc = map snd T -> pw f p sc = Done (o, sc') ->
-  Post (ViewP p) sc sc' (fun es cs => EP T (sc_local_args sc) p (flatten o, es, cs)).
-Definition R_mt f := forall p e sc o sc' T, cok (sc_intls sc) -> Tof p sc = map snd T -> mt f p e sc = Done (o, sc') ->
-  Post (ViewP p) sc sc' (fun es cs => EX T (sc_local_args sc) e (flatten o, es, cs)).
-Definition R_ew f := forall e sc o sc' T, cok (sc_intls sc) -> sc_travelled sc <> [] -> sc_travelled sc = map snd T ->
+Definition R_pw f := forall k p sc o sc' T, cok (sc_intls sc) -> Tof k sc = keys T -> pw f k p sc = Done (o, sc') ->
+  Post (ViewP k) sc sc' (fun es cs => EP T (sc_local_args sc) p (flatten o, es, cs)).
+Definition R_mt f := forall k p e sc o sc' T, cok (sc_intls sc) -> Tof k sc = keys T -> mt f k p e sc = Done (o, sc') ->
+  Post (ViewP k) sc sc' (fun es cs => EX T (sc_local_args sc) e (flatten o, es, cs)).
+Definition R_ew f := forall e sc o sc' T, cok (sc_intls sc) -> sc_travelled sc <> [] -> sc_travelled sc = keys T ->
   ew f e sc = Done (o, sc') ->
   Post ViewT sc sc' (fun es cs => EX T (sc_local_args sc) e (flatten o, es, cs)).
-Definition R_iw f := forall i sc o sc' T, cok (sc_intls sc) -> sc_travelled sc <> [] -> sc_travelled sc = map snd T ->
+Definition R_iw f := forall i sc o sc' T, cok (sc_intls sc) -> sc_travelled sc <> [] -> sc_travelled sc = keys T ->
   iw f i sc = Done (o, sc') ->
   Post ViewT sc sc' (fun es cs => EI T (sc_local_args sc) i (flatten o, es, cs)).
-Definition R_ir f := forall i sc v sc' T, cok (sc_intls sc) -> sc_travelled sc <> [] -> sc_travelled sc = map snd T ->
+Definition R_ir f := forall i sc v sc' T, cok (sc_intls sc) -> sc_travelled sc <> [] -> sc_travelled sc = keys T ->
   ir f i sc = Done (v, sc') ->
   Post ViewT sc sc' (fun es cs => EV T (sc_local_args sc) i (v, es, cs)).
-Definition R_tr f := forall n q exp sc o sc' T, cok (sc_intls sc) -> sc_travelled sc <> [] -> sc_travelled sc = map snd T ->
+Definition R_tr f := forall n q exp sc o sc' T, cok (sc_intls sc) -> sc_travelled sc <> [] -> sc_travelled sc = keys T ->
   inline_write_error exp = source_form exp ->
-  tr f q exp sc = Done (o, sc') ->
+  tr f (key_of n) q exp sc = Done (o, sc') ->
   Post ViewT sc sc' (fun es cs => XP T (sc_local_args sc) exp (Found n q) (flatten o, es, cs)).
-Definition R_ga f := forall oa sc pos named sc' T, cok (sc_intls sc) -> sc_travelled sc <> [] -> sc_travelled sc = map snd T ->
+Definition R_ga f := forall oa sc pos named sc' T, cok (sc_intls sc) -> sc_travelled sc <> [] -> sc_travelled sc = keys T ->
   ga f oa sc = Done (pos, named, sc') ->
   Post ViewT sc sc' (fun es cs => EA T (sc_local_args sc) oa (pos, named, es, cs)).
 
@@ -269,23 +314,23 @@ Definition R_all f := R_pw f /\ R_mt f /\ R_ew f /\ R_iw f /\ R_ir f /\ R_tr f /
 (* ---------- rules of the specification with the triples spelled out ---------- *)
 Lemma L_text' T env s rest t es cs :
   EL T env rest (t, es, cs) -> EL T env (TextElement s :: rest) (transformed transform s ++ t, es, cs).
-Proof. intros H. exact (L_text _ _ _ _ _ _ _ _ _ _ T env s rest _ H). Qed.
+Proof. intros H. exact (L_text _ _ _ _ _ _ _ _ _ T env s rest _ H). Qed.
 
 Lemma L_placeable' T env e rest t1 e1 c1 t2 e2 c2 :
   EX T env e (t1, e1, c1) -> EL T env rest (t2, e2, c2) ->
   EL T env (PlaceableElement e :: rest) (t1 ++ t2, e1 ++ e2, c1 ++ c2).
-Proof. intros H1 H2. exact (L_placeable _ _ _ _ _ _ _ _ _ _ T env e rest _ _ H1 H2). Qed.
+Proof. intros H1 H2. exact (L_placeable _ _ _ _ _ _ _ _ _ T env e rest _ _ H1 H2). Qed.
 
 Lemma X_select' T env sel variants v es cs q t e2 c2 :
   EV T env sel (v, es, cs) -> chosen rules f64_from_str variants v = Some q -> EP T env q (t, e2, c2) ->
   EX T env (Select sel variants) (t, es ++ e2, cs ++ c2).
-Proof. intros H1 H2 H3. exact (X_select _ _ _ _ _ _ _ _ _ _ T env sel variants v es cs q _ H1 H2 H3). Qed.
+Proof. intros H1 H2 H3. exact (X_select _ _ _ _ _ _ _ _ _ T env sel variants v es cs q _ H1 H2 H3). Qed.
 
 Lemma X_select_no_default' T env sel variants v es cs :
   EV T env sel (v, es, cs) -> chosen rules f64_from_str variants v = None ->
   EX T env (Select sel variants) ([], es ++ [MissingDefault], cs).
 Proof.
-  intros H1 H2. pose proof (X_select_no_default _ _ _ _ _ _ _ _ _ _ T env sel variants v es cs H1 H2) as H.
+  intros H1 H2. pose proof (X_select_no_default _ _ _ _ _ _ _ _ _ T env sel variants v es cs H1 H2) as H.
   unfold silent, fails, seq in H. cbn [fst snd app] in H. rewrite app_nil_r in H. exact H.
 Qed.
 
@@ -293,7 +338,7 @@ Lemma I_term' T env id attr cargs pos named es cs t e2 c2 :
   EA T env cargs (pos, named, es, cs) ->
   XP T (Some named) (TermReference id attr cargs) (term_target m id attr) (t, e2, c2) ->
   EI T env (TermReference id attr cargs) (t, es ++ e2, cs ++ c2).
-Proof. intros H1 H2. exact (I_term _ _ _ _ _ _ _ _ _ _ T env id attr cargs pos named es cs _ H1 H2). Qed.
+Proof. intros H1 H2. exact (I_term _ _ _ _ _ _ _ _ _ T env id attr cargs pos named es cs _ H1 H2). Qed.
 
 (* ---------- small correspondences between model and specification ---------- *)
 Lemma print_write v : value_write formatter custom_as_string v = print formatter custom_as_string v.
@@ -320,7 +365,7 @@ Qed.
 Lemma message_case f id attribute sc :
   iw (S f) (MessageReference id attribute) sc =
   match message_target m id attribute with
-  | Found _ q => tr f q (MessageReference id attribute) sc
+  | Found n q => tr f (key_of n) q (MessageReference id attribute) sc
   | Unknown => write_ref_error (MessageReference id attribute) sc
   | Valueless id' =>
       Done (braced (inline_write_error (MessageReference id attribute)), add_error sc (NoValue id'))
@@ -335,7 +380,7 @@ Lemma term_case f id attribute exp sc :
   term_body overflow_checks call_function transform formatter rules custom_as_string
     unescape_write unescape_to_string f64_from_str b args f id attribute exp sc =
   match term_target m id attribute with
-  | Found _ q => tr f q exp sc
+  | Found n q => tr f (key_of n) q exp sc
   | _ => write_ref_error exp sc
   end.
 Proof.
@@ -453,26 +498,26 @@ Proof. intros (_ & V & _). exact V. Qed.
 Lemma Post_trav_ne sc sc' J : Post ViewT sc sc' J -> sc_travelled sc <> [] -> sc_travelled sc' <> [].
 Proof. intros P H. rewrite (Post_trav _ _ _ P). exact H. Qed.
 
-Lemma Post_trav_T sc sc' J (T : list (pname * pattern)) :
-  Post ViewT sc sc' J -> sc_travelled sc = map snd T -> sc_travelled sc' = map snd T.
+Lemma Post_trav_T sc sc' J (T : list pname) :
+  Post ViewT sc sc' J -> sc_travelled sc = keys T -> sc_travelled sc' = keys T.
 Proof. intros P H. rewrite (Post_trav _ _ _ P). exact H. Qed.
 
 Lemma Post_cok V sc sc' J : Post V sc sc' J -> cok (sc_intls sc').
 Proof. intros (_ & _ & _ & C & _). exact C. Qed.
 
 (* ---------- the loops ---------- *)
-Lemma pattern_loop_spec f p len :
+Lemma pattern_loop_spec f (k : option pkey) (p : pattern) len :
   R_mt f ->
-  forall els sc o sc' T, cok (sc_intls sc) -> Tof p sc = map snd T ->
-  pattern_loop overflow_checks transform b (mt f p) len els sc = Done (o, sc') ->
-  Post (ViewP p) sc sc' (fun es cs => EL T (sc_local_args sc) els (flatten o, es, cs)).
+  forall els sc o sc' T, cok (sc_intls sc) -> Tof k sc = keys T ->
+  pattern_loop overflow_checks transform b (mt f k p) len els sc = Done (o, sc') ->
+  Post (ViewP k) sc sc' (fun es cs => EL T (sc_local_args sc) els (flatten o, es, cs)).
 Proof.
   intros Hmt. induction els as [|elem rest IH]; intros sc o sc' T Hc HT H; cbn [pattern_loop] in H.
   - injection H as <- <-. apply Post_refl; [apply ViewP_refl | exact Hc | intros _; constructor].
   - destruct (sc_dirty sc) eqn:Hd.
     { injection H as <- <-. apply Post_refl; [apply ViewP_refl | exact Hc | intros Hx; congruence]. }
     destruct elem as [value | expression].
-    + fold (pattern_loop overflow_checks transform b (mt f p) len) in H.
+    + fold (pattern_loop overflow_checks transform b (mt f k p) len) in H.
       apply obind_done in H as ([o1 sc1] & E & H). injection H as <- <-.
       eapply Post_weaken; [exact (IH sc o1 sc1 T Hc HT E) | auto |].
       intros es cs _ HJ. exact (L_text' _ _ value rest _ _ _ HJ).
@@ -485,15 +530,15 @@ Proof.
         rewrite app_nil_r. split; [reflexivity|]. split; [reflexivity|].
         split; [unfold delta; rewrite Hd; reflexivity | discriminate].
       * cbn [b b_use_isolating andb] in H.
-        fold (pattern_loop overflow_checks transform b (mt f p) len) in H.
+        fold (pattern_loop overflow_checks transform b (mt f k p) len) in H.
         apply obind_done in H as ([o1 sc2] & E1 & H).
         apply obind_done in H as ([o2 sc3] & E2 & H). injection H as <- <-.
         set (sc1 := set_placeables sc n) in *.
-        assert (P1 : Post (ViewP p) sc sc2 (fun es cs => EX T (sc_local_args sc) expression (flatten o1, es, cs))).
-        { eapply Post_pre; [| |exact (Hmt p expression sc1 o1 sc2 T Hc HT E1)].
+        assert (P1 : Post (ViewP k) sc sc2 (fun es cs => EX T (sc_local_args sc) expression (flatten o1, es, cs))).
+        { eapply Post_pre; [| |exact (Hmt k p expression sc1 o1 sc2 T Hc HT E1)].
           - repeat split.
           - auto. }
-        assert (HT2 : Tof p sc2 = map snd T).
+        assert (HT2 : Tof k sc2 = keys T).
         { destruct P1 as (_ & V1 & _). rewrite (ViewP_Tof _ _ _ V1). exact HT. }
         pose proof (IH sc2 o2 sc3 T (Post_cok _ _ _ _ P1) HT2 E2) as P2.
         destruct P1 as (L1 & V1 & R1).
@@ -505,7 +550,7 @@ Qed.
 
 Lemma resolve_list_spec f :
   R_ir f ->
-  forall l sc vs sc' T, cok (sc_intls sc) -> sc_travelled sc <> [] -> sc_travelled sc = map snd T ->
+  forall l sc vs sc' T, cok (sc_intls sc) -> sc_travelled sc <> [] -> sc_travelled sc = keys T ->
   resolve_list (ir f) l sc = Done (vs, sc') ->
   Post ViewT sc sc' (fun es cs => ES T (sc_local_args sc) l (vs, es, cs)).
 Proof.
@@ -522,7 +567,7 @@ Qed.
 
 Lemma resolve_named_spec f :
   R_ir f ->
-  forall l sc nam sc' T, cok (sc_intls sc) -> sc_travelled sc <> [] -> sc_travelled sc = map snd T ->
+  forall l sc nam sc' T, cok (sc_intls sc) -> sc_travelled sc <> [] -> sc_travelled sc = keys T ->
   resolve_named (ir f) l sc = Done (nam, sc') ->
   Post ViewT sc sc' (fun es cs => exists vn, nam = combine (map named_name l) vn /\
                                    ES T (sc_local_args sc) (map named_value l) (vn, es, cs)).
@@ -544,16 +589,16 @@ Qed.
 (* ---------- one step of each function ---------- *)
 Lemma step_pw f : R_mt f -> R_pw (S f).
 Proof.
-  intros Hmt p sc o sc' T Hc HT H. rewrite pw_S in H.
-  pose proof (pattern_loop_spec f p _ Hmt _ sc o sc' T Hc HT H) as P.
+  intros Hmt k p sc o sc' T Hc HT H. rewrite pw_S in H.
+  pose proof (pattern_loop_spec f k p _ Hmt _ sc o sc' T Hc HT H) as P.
   eapply Post_weaken; [exact P | auto |]. intros es cs _ HJ. destruct p as [els]. constructor. exact HJ.
 Qed.
 
 Lemma step_mt f : R_ew f -> R_mt (S f).
 Proof.
-  intros Hew p e sc o sc' T Hc HT H. rewrite mt_S in H. cbv zeta in H.
-  set (sc0 := match sc_travelled sc with [] => set_travelled sc [p] | _ :: _ => sc end) in *.
-  assert (F0 : same_view sc sc0 /\ sc_intls sc0 = sc_intls sc /\ sc_travelled sc0 = Tof p sc /\ sc_travelled sc0 <> [] /\
+  intros Hew k p e sc o sc' T Hc HT H. rewrite mt_S in H. cbv zeta in H.
+  set (sc0 := match sc_travelled sc with [] => set_travelled sc [k] | _ :: _ => sc end) in *.
+  assert (F0 : same_view sc sc0 /\ sc_intls sc0 = sc_intls sc /\ sc_travelled sc0 = Tof k sc /\ sc_travelled sc0 <> [] /\
                (sc_travelled sc <> [] -> sc_travelled sc0 = sc_travelled sc)).
   { subst sc0. unfold Tof. destruct (sc_travelled sc) eqn:Et.
     - repeat split; cbn; congruence.
@@ -561,9 +606,9 @@ Proof.
   destruct F0 as (S0 & I0 & T0 & N0 & K0).
   apply obind_done in H as ([o1 sc1] & E & H).
   assert (Hc0 : cok (sc_intls sc0)) by (rewrite I0; exact Hc).
-  assert (HT0 : sc_travelled sc0 = map snd T) by (rewrite T0; exact HT).
+  assert (HT0 : sc_travelled sc0 = keys T) by (rewrite T0; exact HT).
   pose proof (Hew e sc0 o1 sc1 T Hc0 N0 HT0 E) as P.
-  assert (P' : Post (ViewP p) sc sc1 (fun es cs => EX T (sc_local_args sc) e (flatten o1, es, cs))).
+  assert (P' : Post (ViewP k) sc sc1 (fun es cs => EX T (sc_local_args sc) e (flatten o1, es, cs))).
   { eapply Post_pre; [exact S0 | |].
     2:{ eapply Post_weaken; [exact P | intros V; exact V |].
         intros es cs _ HJ. destruct S0 as (L0 & _). rewrite L0 in HJ. exact HJ. }
@@ -578,20 +623,21 @@ Qed.
 Lemma step_tr f : R_pw f -> R_tr (S f).
 Proof.
   intros Hpw n q exp sc o sc' T Hc Ht HT Hsrc H. rewrite tr_S in H.
-  destruct (pattern_mem q (sc_travelled sc)) eqn:Em.
+  assert (Eo : key_mem (key_of n) (sc_travelled sc) = being_expanded n T) by (rewrite HT; apply key_mem_spec).
+  destruct (key_mem (key_of n) (sc_travelled sc)) eqn:Em.
   - injection H as <- <-. apply Post_error; [reflexivity | reflexivity | exact Hc |].
-    intros _. rewrite flatten_braced, Hsrc. apply R_cyclic. unfold open_by_structure. rewrite <- HT. exact Em.
-  - cbv zeta in H. set (sc1 := set_travelled sc (q :: sc_travelled sc)) in *.
+    intros _. rewrite flatten_braced, Hsrc. apply R_cyclic. symmetry. exact Eo.
+  - cbv zeta in H. set (sc1 := set_travelled sc (Some (key_of n) :: sc_travelled sc)) in *.
     apply obind_done in H as ([o1 sc2] & E & H). injection H as <- <-.
-    assert (HT1 : Tof q sc1 = map snd ((n, q) :: T)) by (cbn; rewrite HT; reflexivity).
-    pose proof (Hpw q sc1 o1 sc2 ((n, q) :: T) Hc HT1 E) as P.
-    assert (V12 : sc_travelled sc2 = q :: sc_travelled sc).
+    assert (HT1 : Tof (Some (key_of n)) sc1 = keys (n :: T)) by (cbn; rewrite HT; reflexivity).
+    pose proof (Hpw (Some (key_of n)) q sc1 o1 sc2 (n :: T) Hc HT1 E) as P.
+    assert (V12 : sc_travelled sc2 = Some (key_of n) :: sc_travelled sc).
     { destruct P as (_ & (V & _) & _). apply V. cbn. discriminate. }
     assert (P' : Post (fun _ _ => True) sc sc2
                    (fun es cs => XP T (sc_local_args sc) exp (Found n q) (flatten o1, es, cs))).
-    { eapply (Post_pre (ViewP q) (fun _ _ => True) sc sc1 sc2); [repeat split | auto |].
+    { eapply (Post_pre (ViewP (Some (key_of n))) (fun _ _ => True) sc sc1 sc2); [repeat split | auto |].
       eapply Post_weaken; [exact P | intros V; exact V |].
-      intros es cs _ HJ. apply R_found; [unfold open_by_structure; rewrite <- HT; exact Em | exact HJ]. }
+      intros es cs _ HJ. apply R_found; [symmetry; exact Eo | exact HJ]. }
     eapply (Post_post (fun _ _ => True) ViewT); [exact P' | repeat split | reflexivity |].
     intros _. unfold ViewT. cbn. rewrite V12. reflexivity.
 Qed.
@@ -610,7 +656,7 @@ Proof.
     eapply (Post_seqT sc sc1 sc2 _
               (fun env es cs => exists vn, nam = combine (map named_name nameds) vn /\
                                            ES T env (map named_value nameds) (vn, es, cs))); [exact P1 | exact P2 |].
-    intros e1 c1 e2 c2 J1 (vn & -> & J2). exact (A_some _ _ _ _ _ _ _ _ _ _ _ _ _ _ _ _ _ _ _ _ J1 J2).
+    intros e1 c1 e2 c2 J1 (vn & -> & J2). exact (A_some _ _ _ _ _ _ _ _ _ _ _ _ _ _ _ _ _ _ _ J1 J2).
   - injection H as <- <- <-. apply Post_refl; [apply ViewT_refl | exact Hc | intros _; constructor].
 Qed.
 
@@ -625,16 +671,16 @@ Proof.
     pose proof (Post_trav_ne _ _ _ P1 Ht) as Ht1.
     pose proof (Post_trav_T _ _ _ _ P1 HT) as HT1.
     assert (Hvar : forall value, chosen rules f64_from_str variants sel = Some value ->
-                     pw f value (set_intls sc1 c') = Done (o, sc') ->
+                     pw f None value (set_intls sc1 c') = Done (o, sc') ->
                      Post ViewT sc sc' (fun es cs => EX T (sc_local_args sc) (Select selector variants) (flatten o, es, cs))).
     { intros value Hv Hw.
-      assert (HTv : Tof value (set_intls sc1 c') = map snd T).
-      { rewrite (Tof_nonempty value (set_intls sc1 c') Ht1). exact HT1. }
-      pose proof (Hpw value (set_intls sc1 c') o sc' T Hc' HTv Hw) as P2.
+      assert (HTv : Tof None (set_intls sc1 c') = keys T).
+      { rewrite (Tof_nonempty None (set_intls sc1 c') Ht1). exact HT1. }
+      pose proof (Hpw None value (set_intls sc1 c') o sc' T Hc' HTv Hw) as P2.
       eapply (Post_seqT sc sc1 sc' _ (fun env es cs => EP T env value (flatten o, es, cs))); [exact P1 | |].
       - eapply Post_pre; [| |exact P2].
         + repeat split.
-        + intros V. exact (ViewP_T value _ _ Ht1 V).
+        + intros V. exact (ViewP_T None _ _ Ht1 V).
       - intros e1 c1 e2 c2 J1 J2. exact (X_select' _ _ _ _ _ _ _ _ _ _ _ J1 Hv J2). }
     destruct hit as [value|].
     + apply (Hvar value); [symmetry; exact Hch | exact H].
@@ -657,7 +703,7 @@ Qed.
 
 Ltac fold_braces :=
   lazymatch goal with
-  | |- eval_inline _ _ _ _ _ _ _ _ _ _ ?T ?env ?i (_, ?es, ?cs) =>
+  | |- eval_inline _ _ _ _ _ _ _ _ _ ?T ?env ?i (_, ?es, ?cs) =>
       change (EI T env i (in_braces i, es, cs))
   end.
 
@@ -695,7 +741,7 @@ Proof.
       eapply (Post_seqT sc sc1 _ _ (fun env es cs => es = [Reference (RefFunction id)] /\ cs = [])); [exact P1 | |].
       * apply Post_error; [reflexivity | reflexivity | exact (Post_cok _ _ _ _ P1) | intros _; split; reflexivity].
       * intros e1 c1 e2 c2 J1 (-> & ->). rewrite app_nil_r.
-        exact (V_function_unknown _ _ _ _ _ _ _ _ _ _ _ _ _ _ _ _ _ _ J1 Ef).
+        exact (V_function_unknown _ _ _ _ _ _ _ _ _ _ _ _ _ _ _ _ _ J1 Ef).
   - rewrite ir_S_message in H. apply Hgen; [exact H | reflexivity].
   - rewrite ir_S_term in H. apply Hgen; [exact H | reflexivity].
   - rewrite ir_S_variable, lookup_variable_r_spec in H.
@@ -705,9 +751,9 @@ Proof.
     + unfold missing_variable in H. destruct (sc_local_args sc) as [la|] eqn:El; cbn [reference_kind_of obind] in H;
         injection H as <- <-.
       * apply Post_refl; [apply ViewT_refl | exact Hc |].
-        intros _. exact (V_variable_missing _ _ _ _ _ _ _ _ _ _ _ (Some la) id Ev).
+        intros _. exact (V_variable_missing _ _ _ _ _ _ _ _ _ _ (Some la) id Ev).
       * apply Post_error; [reflexivity | reflexivity | exact Hc |].
-        intros _. exact (V_variable_missing _ _ _ _ _ _ _ _ _ _ _ None id Ev).
+        intros _. exact (V_variable_missing _ _ _ _ _ _ _ _ _ _ None id Ev).
   - rewrite ir_S_placeable in H. apply Hgen; [exact H | reflexivity].
 Qed.
 
@@ -735,12 +781,12 @@ Proof.
       eapply (Post_seqT sc sc1 _ _ (fun env es cs => es = [] /\ cs = [Call id pos named])); [exact P1 | |].
       * apply Post_call; [reflexivity | exact (Post_cok _ _ _ _ P1) | intros _; split; reflexivity].
       * intros e1 c1 e2 c2 J1 (-> & ->). rewrite app_nil_r, flatten_txt.
-        exact (I_function _ _ _ _ _ _ _ _ _ _ _ _ _ _ _ _ _ _ _ v J1 Ef eq_refl).
+        exact (I_function _ _ _ _ _ _ _ _ _ _ _ _ _ _ _ _ _ _ v J1 Ef eq_refl).
     + rewrite (write_ref_error_spec (FunctionReference id arguments) _ (RefFunction id) eq_refl) in H. injection H as <- <-.
       eapply (Post_seqT sc sc1 _ _ (fun env es cs => es = [Reference (RefFunction id)] /\ cs = [])); [exact P1 | |].
       * apply Post_error; [reflexivity | reflexivity | exact (Post_cok _ _ _ _ P1) | intros _; split; reflexivity].
       * intros e1 c1 e2 c2 J1 (-> & ->). rewrite app_nil_r, flatten_braced.
-        exact (I_function_unknown _ _ _ _ _ _ _ _ _ _ _ _ _ _ _ _ _ _ J1 Ef).
+        exact (I_function_unknown _ _ _ _ _ _ _ _ _ _ _ _ _ _ _ _ _ J1 Ef).
   - (* MessageReference *)
     rewrite message_case in H.
     destruct (message_target m id attribute) as [n q| |id'] eqn:Et.
@@ -769,7 +815,7 @@ Proof.
       - rewrite (write_ref_error_spec (TermReference id attribute arguments) _ (RefTerm id attribute) eq_refl) in E2. injection E2 as <- <-.
         apply Post_error; [reflexivity | reflexivity | exact (Post_cok _ _ _ _ P1) |].
         intros _. rewrite flatten_braced.
-        exact (R_unknown _ _ _ _ _ _ _ _ _ _ T (Some named) (TermReference id attribute arguments)).
+        exact (R_unknown _ _ _ _ _ _ _ _ _ T (Some named) (TermReference id attribute arguments)).
       - exfalso. exact (term_target_not_valueless _ _ _ Et). }
     apply Post_scoped in P2.
     eapply (Post_seqT sc sc1 _ _ (fun env es cs => XP T (Some named) exp (term_target m id attribute) (flatten o1, es, cs)));
@@ -785,10 +831,10 @@ Proof.
         injection H as <- <-.
       * apply Post_refl; [apply ViewT_refl | exact Hc |].
         intros _. rewrite flatten_braced.
-        exact (I_variable_missing _ _ _ _ _ _ _ _ _ _ _ (Some la) id Ev).
+        exact (I_variable_missing _ _ _ _ _ _ _ _ _ _ (Some la) id Ev).
       * apply Post_error; [reflexivity | reflexivity | exact Hc |].
         intros _. rewrite flatten_braced.
-        exact (I_variable_missing _ _ _ _ _ _ _ _ _ _ _ None id Ev).
+        exact (I_variable_missing _ _ _ _ _ _ _ _ _ _ None id Ev).
   - (* Placeable *)
     rewrite iw_S_placeable in H.
     eapply Post_weaken; [exact (Hew expression sc o sc' T Hc Ht HT H) | auto |].
@@ -798,8 +844,8 @@ Qed.
 Theorem refine_all : forall f, R_all f.
 Proof.
   induction f as [|f (Hpw & Hmt & Hew & Hiw & Hir & Htr & Hga)].
-  - split; [intros p sc o sc' T _ _ H; discriminate H|].
-    split; [intros p e sc o sc' T _ _ H; discriminate H|].
+  - split; [intros k p sc o sc' T _ _ H; discriminate H|].
+    split; [intros k p e sc o sc' T _ _ H; discriminate H|].
     split; [intros e sc o sc' T _ _ _ H; discriminate H|].
     split; [intros i sc o sc' T _ _ _ H; discriminate H|].
     split; [intros i sc v sc' T _ _ _ H; discriminate H|].
@@ -818,36 +864,33 @@ Qed.
 Theorem write_refines_off fuel n p c o sc :
   cok c -> pattern_named m n = Some p ->
   write_pattern overflow_checks call_function transform formatter rules custom_as_string
-    unescape_write unescape_to_string f64_from_str b args fuel p c = Done (o, sc) ->
+    unescape_write unescape_to_string f64_from_str b args fuel (Some (key_of n)) p c = Done (o, sc) ->
   tmp_count (sc_errors sc) = (if sc_dirty sc then 1 else 0) /\
   (sc_dirty sc = false ->
-   Eval call_function transform formatter rules custom_as_string unescape_write f64_from_str m args open_by_structure n
+   Eval call_function transform formatter rules custom_as_string unescape_write f64_from_str m args n
      (flatten o, sc_errors sc, sc_calls sc)).
 Proof.
   intros Hc Hn H. unfold write_pattern in H.
   destruct (refine_all fuel) as (Hpw & _).
-  destruct (Hpw p (scope_new c) o sc [(n, p)] Hc eq_refl H) as (_ & _ & _ & _ & es & cs & E1 & E2 & E3 & HJ).
+  destruct (Hpw (Some (key_of n)) p (scope_new c) o sc [n] Hc eq_refl H) as (_ & _ & _ & _ & es & cs & E1 & E2 & E3 & HJ).
   cbn [scope_new sc_errors sc_calls app] in E1, E2. rewrite E1, E2.
   split; [rewrite E3; reflexivity|]. intros Hd. exists p. split; [exact Hn | exact (HJ Hd)].
 Qed.
 
 (* every call of the resolver gives the scope back with the local arguments it got (the D12 regression):
-   in particular a term call inside a term restores the outer term's arguments *)
-Lemma any_names (l : list pattern) : l = map snd (map (fun q => (NMessage [] None, q)) l).
-Proof. rewrite map_map. cbn. symmetry. apply map_id. Qed.
-
+   in particular a term call inside a term restores the outer term's arguments.  `travelled` holds the
+   identities of bundle patterns (keys T), as it does in every scope reachable from a format call on a
+   pattern of the bundle. *)
 Theorem local_args_restored f :
-  (forall p sc o sc', cok (sc_intls sc) -> pw f p sc = Done (o, sc') -> sc_local_args sc' = sc_local_args sc) /\
-  (forall i sc o sc', cok (sc_intls sc) -> sc_travelled sc <> [] -> iw f i sc = Done (o, sc') ->
-                      sc_local_args sc' = sc_local_args sc) /\
-  (forall i sc v sc', cok (sc_intls sc) -> sc_travelled sc <> [] -> ir f i sc = Done (v, sc') ->
-                      sc_local_args sc' = sc_local_args sc).
+  (forall i sc o sc' T, cok (sc_intls sc) -> sc_travelled sc <> [] -> sc_travelled sc = keys T ->
+                        iw f i sc = Done (o, sc') -> sc_local_args sc' = sc_local_args sc) /\
+  (forall i sc v sc' T, cok (sc_intls sc) -> sc_travelled sc <> [] -> sc_travelled sc = keys T ->
+                        ir f i sc = Done (v, sc') -> sc_local_args sc' = sc_local_args sc).
 Proof.
-  destruct (refine_all f) as (Hpw & _ & _ & Hiw & Hir & _).
-  split; [|split].
-  - intros p sc o sc' Hc H. exact (proj1 (Hpw p sc o sc' _ Hc (any_names _) H)).
-  - intros i sc o sc' Hc Ht H. exact (proj1 (Hiw i sc o sc' _ Hc Ht (any_names _) H)).
-  - intros i sc v sc' Hc Ht H. exact (proj1 (Hir i sc v sc' _ Hc Ht (any_names _) H)).
+  destruct (refine_all f) as (_ & _ & _ & Hiw & Hir & _).
+  split.
+  - intros i sc o sc' T Hc Ht HT H. exact (proj1 (Hiw i sc o sc' T Hc Ht HT H)).
+  - intros i sc v sc' T Hc Ht HT H. exact (proj1 (Hir i sc v sc' T Hc Ht HT H)).
 Qed.
 
 End Refine.
@@ -875,22 +918,22 @@ Notation write iso := (write_pattern overflow_checks call_function transform for
 Definition no_marks_in_values (iso : bool) (p : pattern) : Prop :=
   iso = true -> (forall q, In q (bundle_patterns (Bundle m true)) -> ok_pattern q = true) /\ ok_pattern p = true.
 
-Lemma write_off_of_on fuel p c o sc :
+Lemma write_off_of_on fuel top p c o sc :
   cache_ok rules c ->
   (forall q, In q (bundle_patterns (Bundle m true)) -> ok_pattern q = true) -> ok_pattern p = true ->
-  write true fuel p c = Done (o, sc) ->
-  exists sc2, write false fuel p c = Done (strip o, sc2) /\
+  write true fuel top p c = Done (o, sc) ->
+  exists sc2, write false fuel top p c = Done (strip o, sc2) /\
               sc_errors sc2 = sc_errors sc /\ sc_calls sc2 = sc_calls sc /\ sc_dirty sc2 = sc_dirty sc.
 Proof.
   intros Hc Hb Hp H. unfold write_pattern in *.
   destruct (sim_all overflow_checks call_function transform formatter rules custom_as_string
               unescape_write unescape_to_string f64_from_str m true false args (or_intror Hb) fuel) as (Hpw & _).
-  specialize (Hpw p (scope_new c) (scope_new c) (Rs_refl rules (scope_new c) Hc) (or_intror Hp)).
+  specialize (Hpw top p (scope_new c) (scope_new c) (Rs_refl rules (scope_new c) Hc) (or_intror Hp)).
   unfold b1, b2 in Hpw. rewrite H in Hpw.
   pose proof (out_all overflow_checks call_function transform formatter rules custom_as_string
                 unescape_write unescape_to_string f64_from_str (Bundle m false) args fuel) as (Bpw & _).
-  specialize (Bpw p (scope_new c)).
-  destruct (pattern_write _ _ _ _ _ _ _ _ _ (Bundle m false) args fuel p (scope_new c)) as [[o2 s2]|t2|];
+  specialize (Bpw top p (scope_new c)).
+  destruct (pattern_write _ _ _ _ _ _ _ _ _ (Bundle m false) args fuel top p (scope_new c)) as [[o2 s2]|t2|];
     unfold RR, rel_out in Hpw; cbn [fst snd] in Hpw; try tauto.
   destruct Hpw as [[Hs _] HR]. destruct (Rs_fields rules _ _ HR) as (_ & Ed & _ & _ & Ee & Ec).
   destruct (Bpw o2 s2 eq_refl) as [_ Hno]. rewrite Hs, (Hno eq_refl).
@@ -899,15 +942,15 @@ Qed.
 
 Theorem write_refines iso fuel n p c o sc :
   cache_ok rules c -> no_marks_in_values iso p -> pattern_named m n = Some p ->
-  write iso fuel p c = Done (o, sc) ->
+  write iso fuel (Some (key_of n)) p c = Done (o, sc) ->
   tmp_count (sc_errors sc) = (if sc_dirty sc then 1 else 0) /\
   (sc_dirty sc = false ->
-   Eval call_function transform formatter rules custom_as_string unescape_write f64_from_str m args open_by_structure n
+   Eval call_function transform formatter rules custom_as_string unescape_write f64_from_str m args n
      (flatten (strip o), sc_errors sc, sc_calls sc)).
 Proof.
   intros Hc Hok Hn H. destruct iso.
   - destruct (Hok eq_refl) as [Hb Hp].
-    destruct (write_off_of_on fuel p c o sc Hc Hb Hp H) as (sc2 & H2 & Ee & Ec & Ed).
+    destruct (write_off_of_on fuel (Some (key_of n)) p c o sc Hc Hb Hp H) as (sc2 & H2 & Ee & Ec & Ed).
     destruct (write_refines_off overflow_checks call_function transform formatter rules custom_as_string
                 unescape_write unescape_to_string f64_from_str m args Hun fuel n p c (strip o) sc2 Hc Hn H2) as [T J].
     rewrite Ee, Ec, Ed in *. split; assumption.
@@ -916,7 +959,7 @@ Proof.
     split; [exact T|]. intros Hd.
     pose proof (out_all overflow_checks call_function transform formatter rules custom_as_string
                   unescape_write unescape_to_string f64_from_str (Bundle m false) args fuel) as (Bpw & _).
-    destruct (Bpw p (scope_new c) o sc H) as [_ Hno]. rewrite (Hno eq_refl). exact (J Hd).
+    destruct (Bpw (Some (key_of n)) p (scope_new c) o sc H) as [_ Hno]. rewrite (Hno eq_refl). exact (J Hd).
 Qed.
 
 (* the string API, isolation off: format_pattern returns the text write_pattern writes (ResolverPure.v
@@ -924,15 +967,15 @@ Qed.
 Theorem format_refines_off fuel n p c text sc :
   cache_ok rules c -> pattern_named m n = Some p ->
   format_pattern overflow_checks call_function transform formatter rules custom_as_string
-    unescape_write unescape_to_string f64_from_str (Bundle m false) args (S fuel) p c = Done (text, sc) ->
+    unescape_write unescape_to_string f64_from_str (Bundle m false) args (S fuel) (Some (key_of n)) p c = Done (text, sc) ->
   ~ In TooManyPlaceables (sc_errors sc) ->
-  Eval call_function transform formatter rules custom_as_string unescape_write f64_from_str m args open_by_structure n
+  Eval call_function transform formatter rules custom_as_string unescape_write f64_from_str m args n
     (text, sc_errors sc, sc_calls sc).
 Proof.
   intros Hc Hnm H Hn.
   rewrite (format_eq_write_all overflow_checks call_function transform formatter rules custom_as_string
-             unescape_write unescape_to_string f64_from_str (Bundle m false) args fuel p c) in H.
-  destruct (write false (S fuel) p c) as [[o sc1]|t|] eqn:E; try discriminate. injection H as <- <-.
+             unescape_write unescape_to_string f64_from_str (Bundle m false) args fuel (Some (key_of n)) p c) in H.
+  destruct (write false (S fuel) (Some (key_of n)) p c) as [[o sc1]|t|] eqn:E; try discriminate. injection H as <- <-.
   destruct (write_refines_off overflow_checks call_function transform formatter rules custom_as_string
               unescape_write unescape_to_string f64_from_str m args Hun (S fuel) n p c o sc1 Hc Hnm E) as [T J].
   apply J. destruct (sc_dirty sc1); [exfalso | reflexivity].
@@ -942,7 +985,7 @@ Qed.
 (* the limit is reported at most once, and exactly when the run was cut short *)
 Corollary limit_reported_once iso fuel n p c o sc :
   cache_ok rules c -> no_marks_in_values iso p -> pattern_named m n = Some p ->
-  write iso fuel p c = Done (o, sc) ->
+  write iso fuel (Some (key_of n)) p c = Done (o, sc) ->
   tmp_count (sc_errors sc) <= 1 /\ (In TooManyPlaceables (sc_errors sc) <-> sc_dirty sc = true).
 Proof.
   intros Hc Hok Hn H. destruct (write_refines iso fuel n p c o sc Hc Hok Hn H) as [T _].
@@ -975,16 +1018,15 @@ Variable unescape : bytes -> bytes.
 Variable f64_from_str : bytes -> option fval.
 Variable entries : list (bytes * bentry).
 Variable args : option fargs.
-Variable is_open : pname -> pattern -> list (pname * pattern) -> bool.
 
-Notation EP := (eval_pattern call_function transform formatter rules custom_as_string unescape f64_from_str entries args is_open).
-Notation EL := (eval_elements call_function transform formatter rules custom_as_string unescape f64_from_str entries args is_open).
-Notation EX := (eval_expr call_function transform formatter rules custom_as_string unescape f64_from_str entries args is_open).
-Notation EI := (eval_inline call_function transform formatter rules custom_as_string unescape f64_from_str entries args is_open).
-Notation EV := (eval_value call_function transform formatter rules custom_as_string unescape f64_from_str entries args is_open).
-Notation EA := (eval_args call_function transform formatter rules custom_as_string unescape f64_from_str entries args is_open).
-Notation ES := (eval_values call_function transform formatter rules custom_as_string unescape f64_from_str entries args is_open).
-Notation XP := (expand call_function transform formatter rules custom_as_string unescape f64_from_str entries args is_open).
+Notation EP := (eval_pattern call_function transform formatter rules custom_as_string unescape f64_from_str entries args).
+Notation EL := (eval_elements call_function transform formatter rules custom_as_string unescape f64_from_str entries args).
+Notation EX := (eval_expr call_function transform formatter rules custom_as_string unescape f64_from_str entries args).
+Notation EI := (eval_inline call_function transform formatter rules custom_as_string unescape f64_from_str entries args).
+Notation EV := (eval_value call_function transform formatter rules custom_as_string unescape f64_from_str entries args).
+Notation EA := (eval_args call_function transform formatter rules custom_as_string unescape f64_from_str entries args).
+Notation ES := (eval_values call_function transform formatter rules custom_as_string unescape f64_from_str entries args).
+Notation XP := (expand call_function transform formatter rules custom_as_string unescape f64_from_str entries args).
 
 Ltac use_ih :=
   match goal with
@@ -1019,7 +1061,7 @@ Theorem eval_functional :
   (forall T env a r, EA T env a r -> forall r', EA T env a r' -> r' = r) /\
   (forall T env l r, ES T env l r -> forall r', ES T env l r' -> r' = r).
 Proof.
-  apply (eval_mutind call_function transform formatter rules custom_as_string unescape f64_from_str entries args is_open
+  apply (eval_mutind call_function transform formatter rules custom_as_string unescape f64_from_str entries args
            (fun T env p r => forall r', EP T env p r' -> r' = r)
            (fun T env els r => forall r', EL T env els r' -> r' = r)
            (fun T env e r => forall r', EX T env e r' -> r' = r)
@@ -1043,12 +1085,11 @@ Variable unescape : bytes -> bytes.
 Variable f64_from_str : bytes -> option fval.
 Variable entries : list (bytes * bentry).
 Variable args : option fargs.
-Variable is_open : pname -> pattern -> list (pname * pattern) -> bool.
 
-Notation EL := (eval_elements call_function transform formatter rules custom_as_string unescape f64_from_str entries args is_open).
-Notation EI := (eval_inline call_function transform formatter rules custom_as_string unescape f64_from_str entries args is_open).
-Notation EV := (eval_value call_function transform formatter rules custom_as_string unescape f64_from_str entries args is_open).
-Notation EA := (eval_args call_function transform formatter rules custom_as_string unescape f64_from_str entries args is_open).
+Notation EL := (eval_elements call_function transform formatter rules custom_as_string unescape f64_from_str entries args).
+Notation EI := (eval_inline call_function transform formatter rules custom_as_string unescape f64_from_str entries args).
+Notation EV := (eval_value call_function transform formatter rules custom_as_string unescape f64_from_str entries args).
+Notation EA := (eval_args call_function transform formatter rules custom_as_string unescape f64_from_str entries args).
 
 Lemma spec_term_then_rest T env id attr cargs rest r :
   EL T env (PlaceableElement (Inline (TermReference id attr cargs)) :: rest) r ->
@@ -1062,7 +1103,7 @@ Lemma spec_unknown_message T env id attr r :
   r = (in_braces (MessageReference id attr), [Reference (RefMessage id attr)], []).
 Proof.
   intros Ht H. inversion H; subst.
-  match goal with Hx : expand _ _ _ _ _ _ _ _ _ _ _ _ _ _ _ |- _ => rewrite Ht in Hx; inversion Hx; subst end. reflexivity.
+  match goal with Hx : expand _ _ _ _ _ _ _ _ _ _ _ _ _ _ |- _ => rewrite Ht in Hx; inversion Hx; subst end. reflexivity.
 Qed.
 
 Lemma spec_unknown_term T env id attr cargs r :
@@ -1071,7 +1112,7 @@ Lemma spec_unknown_term T env id attr cargs r :
     r = (in_braces (TermReference id attr cargs), es ++ [Reference (RefTerm id attr)], cs).
 Proof.
   intros Ht H. inversion H; subst.
-  match goal with Hx : expand _ _ _ _ _ _ _ _ _ _ _ _ _ _ _ |- _ => rewrite Ht in Hx; inversion Hx; subst end.
+  match goal with Hx : expand _ _ _ _ _ _ _ _ _ _ _ _ _ _ |- _ => rewrite Ht in Hx; inversion Hx; subst end.
   eexists _, _, _, _. split; [eassumption|]. unfold silent, fails, seq. cbn [fst snd]. rewrite app_nil_r. reflexivity.
 Qed.
 
@@ -1137,114 +1178,3 @@ Lemma key_matches_category name n cat ops :
 Proof. intros Hk Ho. unfold key_matches, key_value. rewrite Hk, Ho. reflexivity. Qed.
 
 End SpecFacts.
-
-(* "is being expanded" by name = by structural equality of patterns, when different entries have different patterns *)
-Section Identity.
-Variable call_function : bytes -> list fvalue -> fargs -> fvalue.
-Variable transform : option (bytes -> bytes).
-Variable formatter : option (fvalue -> option bytes).
-Variable rules : ntype -> operands -> pcat.
-Variable custom_as_string : bytes -> bytes.
-Variable unescape : bytes -> bytes.
-Variable f64_from_str : bytes -> option fval.
-Variable entries : list (bytes * bentry).
-Variable args : option fargs.
-
-(* different entries have (structurally) different patterns *)
-Definition no_equal_patterns : Prop :=
-  forall n1 n2 q1 q2, pattern_named entries n1 = Some q1 -> pattern_named entries n2 = Some q2 ->
-                      pattern_eqb q1 q2 = true -> n1 = n2.
-
-Definition consistent (T : list (pname * pattern)) : Prop :=
-  Forall (fun x => pattern_named entries (fst x) = Some (snd x)) T.
-
-Lemma option_bytes_eqb_eq (x y : option bytes) : option_eqb bytes_eqb x y = true <-> x = y.
-Proof.
-  destruct x as [a|], y as [c|]; cbn; try (split; [discriminate | discriminate]); try tauto.
-  rewrite bytes_eqb_eq. split; [intros ->; reflexivity | intros [= ->]; reflexivity].
-Qed.
-
-Lemma pname_eqb_eq a c : pname_eqb a c = true <-> a = c.
-Proof.
-  destruct a as [i x|i x], c as [j y|j y]; cbn; try (split; discriminate);
-    rewrite Bool.andb_true_iff, bytes_eqb_eq, option_bytes_eqb_eq;
-    (split; [intros [-> ->]; reflexivity | intros [= -> ->]; split; reflexivity]).
-Qed.
-
-Lemma open_agree n q T :
-  no_equal_patterns -> consistent T -> pattern_named entries n = Some q ->
-  open_by_structure n q T = open_by_identity n q T.
-Proof.
-  intros Hd HT Hn. unfold open_by_structure, open_by_identity, pattern_mem.
-  induction HT as [|[n1 q1] T H1 HT IH]; cbn [map existsb snd fst]; [reflexivity|].
-  rewrite IH. f_equal. cbn [fst snd] in H1.
-  destruct (pattern_eqb q q1) eqn:E1, (pname_eqb n n1) eqn:E2; try reflexivity.
-  - rewrite (Hd n n1 q q1 Hn H1 E1) in E2.
-    assert (X : pname_eqb n1 n1 = true) by (apply pname_eqb_eq; reflexivity). congruence.
-  - apply pname_eqb_eq in E2. subst n1. rewrite Hn in H1. injection H1 as <-.
-    rewrite pattern_eqb_refl in E1. discriminate.
-Qed.
-
-Lemma message_target_named id attr n q :
-  message_target entries id attr = Found n q -> pattern_named entries n = Some q.
-Proof.
-  intros H. assert (Hn : n = NMessage id attr).
-  { unfold message_target, attr_or_value in H. destruct (entry_find entries id) as [[v a| |]|]; try discriminate.
-    destruct attr as [x|]; [destruct (find_attribute a x); [injection H as <- <-; reflexivity | discriminate]
-                           | destruct v; [injection H as <- <-; reflexivity | discriminate]]. }
-  subst n. unfold pattern_named. rewrite H. reflexivity.
-Qed.
-
-Lemma term_target_named id attr n q :
-  term_target entries id attr = Found n q -> pattern_named entries n = Some q.
-Proof.
-  intros H. assert (Hn : n = NTerm id attr).
-  { unfold term_target, attr_or_value in H. destruct (entry_find entries id) as [[| v a|]|]; try discriminate.
-    destruct attr as [x|]; [destruct (find_attribute a x); [injection H as <- <-; reflexivity | discriminate]
-                           | injection H as <- <-; reflexivity]. }
-  subst n. unfold pattern_named. rewrite H. reflexivity.
-Qed.
-
-Notation S_ j := (j call_function transform formatter rules custom_as_string unescape f64_from_str entries args open_by_structure).
-Notation I_ j := (j call_function transform formatter rules custom_as_string unescape f64_from_str entries args open_by_identity).
-
-Theorem structure_to_identity :
-  no_equal_patterns ->
-  (forall T env p r, S_ eval_pattern T env p r -> consistent T -> I_ eval_pattern T env p r) /\
-  (forall T env els r, S_ eval_elements T env els r -> consistent T -> I_ eval_elements T env els r) /\
-  (forall T env e r, S_ eval_expr T env e r -> consistent T -> I_ eval_expr T env e r) /\
-  (forall T env i r, S_ eval_inline T env i r -> consistent T -> I_ eval_inline T env i r) /\
-  (forall T env i t r, S_ expand T env i t r -> consistent T ->
-      (forall n q, t = Found n q -> pattern_named entries n = Some q) -> I_ expand T env i t r) /\
-  (forall T env i r, S_ eval_value T env i r -> consistent T -> I_ eval_value T env i r) /\
-  (forall T env a r, S_ eval_args T env a r -> consistent T -> I_ eval_args T env a r) /\
-  (forall T env l r, S_ eval_values T env l r -> consistent T -> I_ eval_values T env l r).
-Proof.
-  intros Hd.
-  apply (eval_mutind call_function transform formatter rules custom_as_string unescape f64_from_str entries args open_by_structure
-           (fun T env p r => consistent T -> I_ eval_pattern T env p r)
-           (fun T env els r => consistent T -> I_ eval_elements T env els r)
-           (fun T env e r => consistent T -> I_ eval_expr T env e r)
-           (fun T env i r => consistent T -> I_ eval_inline T env i r)
-           (fun T env i t r => consistent T -> (forall n q, t = Found n q -> pattern_named entries n = Some q) ->
-                               I_ expand T env i t r)
-           (fun T env i r => consistent T -> I_ eval_value T env i r)
-           (fun T env a r => consistent T -> I_ eval_args T env a r)
-           (fun T env l r => consistent T -> I_ eval_values T env l r));
-    intros; try solve [econstructor; eauto].
-  - constructor. apply H0; [assumption | apply message_target_named].
-  - econstructor; [eauto|]. apply H2; [assumption | apply term_target_named].
-  - apply R_found.
-    + rewrite <- (open_agree n q T Hd H2 (H3 n q eq_refl)). assumption.
-    + apply H1. constructor; [exact (H3 n q eq_refl) | assumption].
-  - apply R_cyclic. rewrite <- (open_agree n q T Hd H0 (H1 n q eq_refl)). assumption.
-Qed.
-Corollary Eval_structure_to_identity n r :
-  no_equal_patterns ->
-  S_ Eval n r -> I_ Eval n r.
-Proof.
-  intros Hd (q & Hn & H). exists q. split; [exact Hn|].
-  apply (proj1 (structure_to_identity Hd) _ _ _ _ H). constructor; [exact Hn | constructor].
-Qed.
-
-End Identity.
